@@ -103,12 +103,13 @@ class World:
             cur[name] = new
 
     def nic_record(self, name, v):
-        # rx bytes, tx packets, rx drop carry the generated counters
-        return dict(name=name, style="new", rx=[v[0], 7, 0, v[2], 0, 0, 0, 0],
-                    tx=[11, v[1], 0, 0, 0, 0, 0, 0])
+        # every reported field follows one of the three generated counters
+        # (so that "all fields of a device go backwards at once" happens)
+        return dict(name=name, style="new", rx=[v[0], v[1], v[2], v[0], 0, 0, 0, 0],
+                    tx=[v[1], v[2], v[0], v[1], 0, 0, 0, 0])
 
     def disk_record(self, name, v):
-        vals = [v[0], 3, v[1], 4, 5, 6, 7, 8, 0, v[2], 9] + [0] * 6
+        vals = [v[0], v[1], v[2], v[0], v[1], v[2], v[0], v[1], 0, v[2], 9] + [0] * 6
         return dict(name=name, layout=20, vals=vals, major=8, minor=0,
                     whole=name in WHOLE)
 
